@@ -12,13 +12,13 @@ calls and `...` are opaque leaves with arbitrary values, metatables and effects.
 Hypotheses of the `_partial` theorems:
 * `Agree N E` — the primitives darklua computes differently but EQUIVALENTLY (true of IEEE doubles,
   checked by the execution oracle of the harness): `//` is `floor(a/b)`, `%` is `a - b*floor(a/b)`,
+  a number the evaluator formats (plain notation, ≤ 14 significant digits) has the semantics' `tostring` text,
   and a string darklua converts to a number is converted to the same number by the semantics
   whenever the semantics converts it at all;
 * `h8 E e = true` — the decidable condition of `C08/Model.lean`, computed by the driver (`c08.h`):
-  it excludes exactly the places where darklua's primitive DISAGREES with Lua on doubles
-  (F3 number formatting under `..`; F1/F2 ε-equality and F4 interpolation of an undetermined value are fixed)
-  and reference equality of two fresh tables/functions across an effectful operand.
-The `_full` statements (no `h8`) are refuted by concrete witnesses (`_full_false`).
+  the findings F1–F4 it used to exclude are FIXED in /repo; what is left is reference equality of two fresh
+  tables/functions across an effectful operand (`refEqOK`), where the statement quantified over every call
+  handler is genuinely false (`evaluate_sound_full_false`: a rogue handler).
 -/
 namespace DarkluaModel.C08
 open Sem Evaluator
@@ -218,15 +218,20 @@ def toyN : NumOps where
   floor := id
   sqrt := id
 
-/-- evaluator primitives that DISAGREE with `toyN` the way darklua's disagree with Lua on doubles:
-a number format that is not `tostring` (F3). (F1/F2 — an equality that is not equality — is fixed:
-the evaluator now uses the semantics' own `N.eq`.) -/
+/-- evaluator primitives over `toyN` (number formatting agrees with `toyN.toStr`, no string is a number) -/
 def toyE : EvalOps toyN where
-  fmtRust := fun _ => [1]
+  fmtRust := fun _ => [2]
   parseLit := fun _ => none
 
 theorem toy_agree : Agree toyN toyE :=
-  ⟨fun _ _ => rfl, fun _ _ => rfl, fun s x y h1 h2 => by simp [toyN] at h2⟩
+  ⟨fun _ _ => rfl, fun _ _ => rfl, fun s x y h1 h2 => by simp [toyN] at h2,
+   fun x t h => by
+     simp only [luaNumberToString] at h
+     split at h
+     · cases h
+     · split at h
+       · cases h; rfl
+       · cases h⟩
 
 def σ0 : State toyN := ⟨[], [], [], [], []⟩
 def call0 : CallFn toyN := fun _ _ _ => .timeout
@@ -238,40 +243,55 @@ def evaluate_sound_full : Prop :=
       (vs : List (Val N)) (w : Val N),
       toVal? (evaluate E e) = some w → evalE call ρ k env e σ = .ok vs σ' → vs = [w]
 
-/-- F3: `0 .. ""` "evaluates" to the Rust-formatted text, execution yields the `tostring` text -/
+/-- a rogue call handler: whatever closure is called, it gives EVERY table the metatable 0 -/
+def callR : CallFn toyN := fun _ _ σ =>
+  .ok [] { σ with tables := σ.tables.map fun t => { t with mt := some 0 } }
+def ρR : ExtOracle toyN := fun _ _ _ => [.bool true]
+/-- global `g` is a closure; table 0 has `__eq` = the external function `emit` -/
+def σR : State toyN :=
+  { globals := [("g", .fn 0)], cells := [],
+    tables := [⟨[(strVal "__eq", .builtin "emit")], none⟩],
+    closures := [⟨.mk [] false none none [] [] (.mk [] none), [], []⟩], trace := [] }
+/-- `{ g() } == { g() }` -/
+def eR : Expr :=
+  .bin .eq (.table [.pos (.call (.var "g") none .tuple [])]) (.table [.pos (.call (.var "g") none .tuple [])])
+
+theorem rogue_run :
+    (match evalE callR ρR 2 ⟨[], []⟩ eR σR with
+     | .ok vs _ => vs = [.bool true]
+     | _ => False) := by
+  simp [eR, σR, callR, ρR, evalE, evalEs, evalEntries, Res.bind, State.allocTable, lookupVar, lookupAssoc,
+    State.getGlobal, first, callVal, Sem.setMany, binopVal, State.metamethod, State.metaOf, State.getTable,
+    State.rawGet, rawGetEntries, rawEq, strVal, libNames, State.canon, canonAux, Val.truthy]
+
+/-- With F1–F4 fixed, what is left outside `h8` is `refEqOK`, and there the statement quantified over EVERY
+call handler really is false: `{ g() } == { g() }` evaluates to `false` (two fresh tables), but a call handler
+that gives the fresh tables a metatable with `__eq` makes execution return `true`. (No Lua closure can do
+that — the tables are unreachable — which is why the execution oracle never fails there.) -/
 theorem evaluate_sound_full_false : ¬ evaluate_sound_full := by
   intro h
-  have := h toyN toyE toy_agree call0 ρ0 0 ⟨[], []⟩ (.bin .concat (.num 0) (.str [])) σ0 σ0
-    [.str [2]] (.str [1]) rfl rfl
-  simp at this
+  have hr := rogue_run
+  cases hres : evalE callR ρR 2 ⟨[], []⟩ eR σR with
+  | ok vs σ' =>
+    rw [hres] at hr
+    have := h toyN toyE toy_agree callR ρR 2 ⟨[], []⟩ eR σR σ' vs (.bool false) rfl hres
+    rw [hr] at this
+    simp at this
+  | err v σ' => rw [hres] at hr; exact hr
+  | timeout => rw [hres] at hr; exact hr
 
--- regression (F1/F2, fixed): `0 == 1` now evaluates to `false`, as it runs
+-- regression (F1/F2, fixed): `0 == 1` evaluates to `false`, as it runs
 example : toVal? (evaluate toyE (.bin .eq (.num 0) (.num 1))) = some (.bool false) ∧
     evalE call0 ρ0 0 ⟨[], []⟩ (.bin .eq (.num 0) (.num 1)) σ0 = .ok [.bool false] σ0 := ⟨rfl, rfl⟩
 
-def pure_sound_full : Prop :=
-  ∀ (N : NumOps) (E : EvalOps N), Agree N E →
-    ∀ (call : CallFn N) (ρ : ExtOracle N) (k : Nat) (env : Env N) (e : Expr) (σ σ' : State N)
-      (vs : List (Val N)),
-      hasSideEffects E false e = false → evalE call ρ k env e σ = .ok vs σ' → σ'.trace = σ.trace
+-- regression (F3, fixed): `0 .. ""` folds to the semantics' own text
+example : toVal? (evaluate toyE (.bin .concat (.num 0) (.str []))) = some (.str [2]) ∧
+    evalE call0 ρ0 0 ⟨[], []⟩ (.bin .concat (.num 0) (.str [])) σ0 = .ok [.str [2]] σ0 := ⟨rfl, rfl⟩
 
-/-- F3 reaches the side-effect analysis: `((0 .. "") ~= "\x01") and f()` is declared side-effect free
-(the folded left operand "evaluates" to `false`), yet execution calls `f` -/
-theorem pure_sound_full_false : ¬ pure_sound_full := by
-  intro h
-  have := h toyN toyE toy_agree call0 ρ0 2 ⟨[], []⟩
-    (.bin .and (.bin .ne (.bin .concat (.num 0) (.str [])) (.str [1])) (.call (.var "f") none .tuple []))
-    { σ0 with globals := [("f", .builtin "emit")] }
-    { σ0 with globals := [("f", .builtin "emit")], trace := [⟨"emit", []⟩] } [.str []] rfl
-    (by
-      simp [evalE, evalEs, Res.bind, binopVal, rawEq, toStringPrim?, toyN, first, Val.truthy, lookupVar,
-        lookupAssoc, State.getGlobal, σ0, callVal, libNames, ρ0])
-  simp [σ0] at this
-
--- regression (F4, fixed): an interpolated value the evaluator cannot determine now counts as a side effect
+-- regression (F4, fixed): an interpolated value the evaluator cannot determine counts as a side effect
 example : hasSideEffects toyE false (.interp [.v (.var "x")]) = true := rfl
 
--- regression (F1 reaching purity, fixed): `(0 ~= 1) and f()` is now declared effectful
+-- regression (F1 reaching purity, fixed): `(0 ~= 1) and f()` is declared effectful
 example : hasSideEffects toyE false
     (.bin .and (.bin .ne (.num 0) (.num 1)) (.call (.var "f") none .tuple [])) = true := rfl
 
